@@ -395,6 +395,9 @@ def predicate_ivar(c, s, iv_value, iv_unit):
 
 def predicate_rows(parent_rows, s, has_cov, parent_cov=None, parent_of_out=None):
     """multiset of output (t, rv, err) bit triples equals the expected one; sorted"""
+    if bool(has_cov) != bool(s.get("has_cov")):
+        return ("the parent stores a covariance matrix but the result does not (uncertainty shape "
+                f"{np.shape(s.get('err', s.get('cov')))})" if has_cov else "the result stores a covariance matrix but the parent does not")
     got = sorted((bits(s["t"][r]), bits(s["rv"][r])) + (() if has_cov else (bits(s["err"][r]),)) for r in range(len(s["rv"])))
     if got != sorted(parent_rows):
         return f"{len(got)} observations returned, {len(parent_rows)} expected, or their (t, rv, err) values differ"
